@@ -11,6 +11,7 @@ from vf.simk.world import World
 
 ID = "C12"
 LEVEL = "exploration"
+ALT_MOUNT = True          # run once more with procfs mounted at /hostproc (vf/child.py)
 ARGS = [b"", b"a", b"a b", b"/bin/x", b"\xff", b"-c"]
 ENVS = [b"A=1", b"A=2", b"B=x=y", b"NOEQ", b"=v", b"", b"C=", b"D=\xff"]
 
